@@ -132,7 +132,8 @@ func resolveProllyConflicts(ctx *sql.Context, tbl *doltdb.Table, tblName doltdb.
 
 		// get row data
 		var ourRow, theirRow val.Tuple
-		err = ourMap.Get(ctx, cnfArt.Key, func(_, v val.Tuple) error {
+		// read our row from the map being mutated: an earlier artifact for the same key may already have changed it
+		err = mutMap.Get(ctx, cnfArt.Key, func(_, v val.Tuple) error {
 			ourRow = v
 			return nil
 		})
